@@ -9,7 +9,7 @@ def hook_commits():
     return [l.split()[0] for l in out.splitlines() if "verif hook" in l]
 
 CLAIMED = {
-    "C06": dict(engine="chan-inline + chan-threads", design="5/C06",
+    "C06": dict(engine="chan-inline + chan-threads + file-e2e", design="5/C06",
         technique="deterministic simulation: seeded interleaving of sender operations with the real Receiver::exec under a scripted, fault-injecting processor; reference-queue oracle plus history checks",
         text="Seeded exploration (not exhaustive) of interleavings x processor outcome sequences of the real emit_batcher channel on a virtual clock. Every first-attempt batch must equal the reference queue's hand-off, every retry must equal the returned remainder, and the whole history is re-checked for exactly-once / FIFO / accounted truncation. Exploration is the right level: the property is over schedules and fault sequences, which only sampling at this scale (10^5..10^7 runs) reaches with the real code.",
         note="Trusted: the reference queue model, the reduction argument that receiver-local steps commute with sender critical sections (so interleaving at lock hooks and processor/wait/watcher seams is complete for inline mode), the hook placement (one before_lock per acquisition of the channel state lock)."),
@@ -144,7 +144,7 @@ def main():
              "kind_free_text": "real sync.rs entry points on real OS threads under a baton-passing scheduler with virtual time, spurious wake-ups and early timers"},
             {"name": "calling-contexts", "path": "/verif/sim/src/ctx_probes.rs", "serves_properties": ["C08"],
              "kind_free_text": "deterministic probes of the blocking entry points' immediate paths from ten calling contexts (plain thread, tokio current-thread, multi-thread block_on / worker / spawn_blocking, LocalSet on either flavour, nested block_in_place, Runtime::enter)"},
-            {"name": "file-e2e", "path": "/verif/sim/src/file_e2e.rs", "serves_properties": ["C07", "C08", "C09", "C10"],
+            {"name": "file-e2e", "path": "/verif/sim/src/file_e2e.rs", "serves_properties": ["C06", "C07", "C08", "C09", "C10"],
              "kind_free_text": "real FileSet(s) (JSON writer, channel, worker thread, blocking_flush, And) over the simulated filesystem in thread mode with stalls and retryable faults"},
             {"name": "otlp-delivery", "path": "/verif/sim/src/otlp_sim.rs", "serves_properties": ["C12", "C07", "C08", "C09"],
              "kind_free_text": "real Otlp emitter over SimStream pipes against a scripted HTTP/1.1 + h2 collector on a simulated executor"},
